@@ -131,7 +131,7 @@ def run(tier):
     rm = vf.tlc_must_pass('RegpRxMC.tla', 'RegpRxMC.cfg', 'regprx', heap='8g',
                           sink=lambda b: cases.append(flavoured(b[3:])) if b.startswith('C;;') else None)
     v.add_tlc(rm)
-    res1 = vf.run_scripts('regp', [cases[i:i + 100] for i in range(0, len(cases), 100)], 'C09', name='rxc')
+    res1 = vf.run_scripts('regp', [cases[i:i + 100] for i in range(0, len(cases), 100)], 'C09', name='rxc', flavours=3, flav_every=25)
     v.exec_problems(res1, 'regp')
     v.cov['traces_validated_against_impl'] += len(cases)
     v.cov['evaluations'] += res1.checked
@@ -144,7 +144,7 @@ def run(tier):
     ss = []
     for rnd in vf.rounds(tier, 15):
         ss += list(scripts(rnd, quick, F))
-    vf.trace_flow(v, 'RegpTrace.tla', 'RegpTrace.cfg', 'regp', ss, 'rxs')
+    vf.trace_flow(v, 'RegpTrace.tla', 'RegpTrace.cfg', 'regp', ss, 'rxs', flavours=3)
     v.cov['distinct_nontrivial'] += len(set(l for s in ss for l in s))
     v.notes['sizeof_RPFrame'] = F
     v.cov['rule'] = ('2 transports x 2 word sizes x block capacities x {frame lengths around the capacity and around the header size, read sizes around the transmit limit, '
